@@ -274,6 +274,8 @@ def r5(ctx, backpressure=True):
           t_ = resolved_text(evs, j, c.node)
           if 'Tag.KEY' in t_ and ((t_.endswith('isNone') and not c.info) or (t_.endswith('isnotNone') and c.info)):
             return True
+          if t_.startswith('Tag.KEYin') and not c.info:
+            return True       # `Tag.KEY in d and d[Tag.KEY] is None`: no key at all is a live frame, as with d.get(Tag.KEY, 0)
         return False
       ok_tag = live_tag(ev[:w[0]])
       if not ok_tag:
